@@ -1,13 +1,14 @@
 #!/usr/bin/env python3
 """adopt_seed.py <Cxx> <k> <name> <demo-dest-relpath> <go test pkg> [-run regex]
-Confirms a seeded change myself in the seeder's scratch worktree (/tmp/seed/Cxx/repo): applies, builds, runs the pinned
+Confirms a seeded change myself in the seeder's scratch worktree ($SEED_ROOT/Cxx/repo, default /tmp/seed): applies, builds, runs the pinned
 suite, runs the demonstration with and without the change; then runs my check against it in /repo (apply, check, undo)
 and stores everything under /verif/seeded/<name>/."""
 import json, os, shutil, subprocess, sys
 pid, k, name, dest, pkg = sys.argv[1:6]
 run = sys.argv[7] if len(sys.argv) > 7 and sys.argv[6] == "-run" else "Demo"
-src = f"/tmp/seed/{pid}/out/{k}"
-wt = f"/tmp/seed/{pid}/repo"
+ROOT = os.environ.get("SEED_ROOT", "/tmp/seed")
+src = f"{ROOT}/{pid}/out/{k}"
+wt = f"{ROOT}/{pid}/repo"
 env = dict(os.environ, GOFLAGS="-mod=mod", GOPROXY="off", GOSUMDB="off", GOTOOLCHAIN="local")
 def sh(cmd, cwd=wt):
     p = subprocess.run(cmd, shell=True, cwd=cwd, env=env, stdout=subprocess.PIPE, stderr=subprocess.STDOUT, text=True)
